@@ -238,6 +238,69 @@ def mk_name(labels):
     return None if labels is None else dns.name.Name(labels)
 
 
+_WORD = None
+_UNMODELLED_CACHE = {}
+
+
+def mentions_unmodelled(text: str) -> bool:
+    """over-approximation: does some word of the text name an implemented record type (or directive) that the model
+    does not cover?  Such texts are not compared with the model (the oracle still runs on them)."""
+    global _WORD
+    import re
+    if _WORD is None:
+        _WORD = re.compile(r"[A-Za-z0-9_$-]+")
+    for w in set(_WORD.findall(text)):
+        u = w.upper()
+        r = _UNMODELLED_CACHE.get(u)
+        if r is None:
+            r = False
+            if u.startswith("$UNICODE"):
+                r = True
+            else:
+                try:
+                    t = dns.rdatatype.from_text(u)
+                    if int(t) not in MODELLED and dns.rdata.get_rdata_class(IN, t) is not dns.rdata.GenericRdata:
+                        r = True
+                except Exception:
+                    r = False
+            _UNMODELLED_CACHE[u] = r
+        if r:
+            return True
+    return False
+
+
+_VARIANT = {}
+
+
+def variant():
+    """Which variant of the two D08 decision points does the imported code implement?  Learnt by replaying the
+    witnesses (DESIGN §6): the model is then asked for *that* variant everywhere.
+    wfix: 0 = rd.to_generic() (as shipped), 1 = rd.to_generic(style.origin), 2 = + Zone.to_styled_file supplies the origin;
+    gfix: generic (\\#) text of a known type is re-encoded with the relativization origin (repaired) or without (as shipped)."""
+    if _VARIANT:
+        return _VARIANT
+    O = dns.name.from_text("example.")
+    z = dns.zone.Zone(O, IN, relativize=True)
+    z.find_rdataset(dns.name.empty, "NS", create=True).add(dns.rdata.from_text(IN, "NS", "ns1", origin=O, relativize=True), 300)
+    wfix = 0
+    try:
+        z.to_styled_text(dns.zone.ZoneStyle(want_generic=True, origin=O, relativize=True))
+        wfix = 1
+        z.to_styled_text(dns.zone.ZoneStyle(want_generic=True))
+        wfix = 2
+    except dns.name.NeedAbsoluteNameOrOrigin:
+        pass
+    gfix = 0
+    try:
+        rd = dns.rdata.from_text(IN, "NS", "\\# 13 036e7331076578616d706c6500", origin=O, relativize=True, relativize_to=O)
+        if rd.target == dns.name.Name([b"ns1"]):
+            gfix = 1
+    except dns.exception.SyntaxError:
+        pass
+    _VARIANT.update(wfix=wfix, gfix=gfix)
+    return _VARIANT
+
+
 def impl_read(origin, rel, chk, text):
     try:
         z = dns.zone.from_text(text, origin=mk_name(origin), relativize=rel, check_origin=chk)
@@ -859,8 +922,10 @@ def eval_case(ctx: Ctx, c: dict):
         text = bytes.fromhex(c["text"]).decode("latin-1")
         origin = None if c["origin"] is None else [bytes.fromhex(x) for x in c["origin"]]
         line, z = impl_read(origin, c["rel"], c["chk"], text)
-        if line is not None:
-            ctx.corr(f"c09.read {opt_name(origin)} {int(c['rel'])} {int(c['chk'])} {txt_hex(text)}", line, c)
+        if line is not None and mentions_unmodelled(text):
+            ctx.count("read.skipped-unmodelled-type")
+        elif line is not None:
+            ctx.corr(f"c09.read {opt_name(origin)} {int(c['rel'])} {int(c['chk'])} {variant()['gfix']} {txt_hex(text)}", line, c)
             ctx.count("read." + (line.split(" ")[0] if line.startswith("ok") else line.split(" ", 1)[1]))
             if line.startswith("err FOREIGN") and not c.get("malformed_c04"):
                 ctx.fail("C09/read/foreign-exception:" + line.split(" ")[2], f"from_text raised {line} on {text!r}", rep)
@@ -880,7 +945,7 @@ def eval_case(ctx: Ctx, c: dict):
         lb, zb = impl_read(origin, rel, False, tb)
         for t_, l_ in ((ta, la), (tb, lb)):
             if l_ is not None:
-                ctx.corr(f"c09.read {opt_name(origin)} {int(rel)} 0 {txt_hex(t_)}", l_, c)
+                ctx.corr(f"c09.read {opt_name(origin)} {int(rel)} 0 {variant()['gfix']} {txt_hex(t_)}", l_, c)
         ctx.count("spell." + c.get("what", "respell"))
         if za is None or zb is None:
             ctx.fail(f"C09/spelling/{c.get('what', 'respell')}/load-fails", f"{la} / {lb} on spellings {ta!r} / {tb!r}", rep)
@@ -937,7 +1002,7 @@ def eval_zone_case(ctx: Ctx, c: dict, rep):
         text = None
         wline = "err " + err_family(e)
     if modelled is not None:
-        ctx.corr(f"c09.write {enc_labels(origin)} {modelled} " + " ".join(style_tokens(st, origin)), wline, c)
+        ctx.corr(f"c09.write {enc_labels(origin)} {int(rel)} {modelled} " + " ".join(style_tokens(st, origin) + [f"wfix={variant()['wfix']}"]), wline, c)
     ctx.count("zone.rel" if rel else "zone.abs")
     ctx.count("zone.names", len(z.nodes))
     if text is None:
@@ -951,7 +1016,7 @@ def eval_zone_case(ctx: Ctx, c: dict, rep):
     for give_origin in ([True, False] if st.get("wo") else [True]):
         line, z2 = impl_read(origin if give_origin else None, rel, False, text)
         if line is not None and modelled is not None:
-            ctx.corr(f"c09.read {opt_name(origin if give_origin else None)} {int(rel)} 0 {txt_hex(text)}", line, c)
+            ctx.corr(f"c09.read {opt_name(origin if give_origin else None)} {int(rel)} 0 {variant()['gfix']} {txt_hex(text)}", line, c)
         if z2 is None:
             if gen and line == "err SyntaxError" and generic_read_trigger(z, O):
                 ctx.fail("C09/write-read/want_generic/read-raises-SyntaxError/known-type-name-below-origin",
@@ -1058,7 +1123,8 @@ def gen_generate_line(rng):
     a = rng.below(12)
     b = a + rng.below(6)
     rngs = f"{a}-{b}" + (f"/{rng.choice([1, 2, 3])}" if rng.chance(1, 3) else "")
-    lhs = rng.choice(["host$", "h${0,3,d}", "$.sub", "${-1}x", "n${2,2,x}", "r${0,4,n}.rev", "$", "fix", "a$b$", "u${1,3,X}", "o${0,3,o}"])
+    lhs = rng.choice(["host$", "h${0,3,d}", "$.sub", "${-1}x", "n${2,2,x}", "r${0,4,n}.rev", "$", "fix", "a$b$", "u${1,3,X}", "o${0,3,o}",
+                      "m${-7,4,d}", "k${-20,5,x}", "j${-3,3,o}", "q${-9,6,N}.z"])
     ttl = rng.choice(["", "300 ", "1h "])
     cls = rng.choice(["", "IN ", "in "])
     kind = rng.below(4)
@@ -1179,6 +1245,9 @@ def generate(ctx: Ctx, scale: int, rng, thorough=False):
         origin = rng.choice(ORIGINS)
         rel = rng.chance(1, 2)
         recs = recs_to_case(gen_zone_records(rng, origin, MODEL_TYPES, nnames=rng.choice([2, 3, 4, 6]), simple_names=rng.chance(2, 3)))
+        if rng.chance(1, 3):
+            # SOA last: until it is read no default TTL is known, so omitted TTLs inherit the last explicit one
+            recs = recs[1:] + recs[:1]
         ra, rb = rng.fork(1), rng.fork(2)
         ta = render_zone_text(ra, origin, recs, spell=False)
         tb = render_zone_text(rb, origin, recs, spell=True)
@@ -1191,7 +1260,7 @@ def generate(ctx: Ctx, scale: int, rng, thorough=False):
             sib = [b"zz"] + origin[1:]                             # a sibling of the origin
             extra = rng.choice(["out.other. 300 IN A 1.2.3.4", "zz.invalid. IN TXT \"x\" ( \n \"y\" )", "other. 5 CNAME www", "x.net. MX 10 (\n a )\n  A 9.9.9.9",
                                 name_text(anc) + " 300 IN A 1.2.3.4", name_text(anc) + " IN NS ns1\n\t300 IN TXT \"inherits the out-of-zone owner\"",
-                                name_text(sib) + " 60 IN A 10.9.8.7", name_text(anc) + " 300 IN CNAME www ; junk ( \n )"])
+                                name_text(sib) + " 60 IN A 10.9.8.7", name_text(anc) + " 300 IN CNAME www ( ; junk ( \n )"])
             text = tb + ("" if tb.endswith("\n") else "\n") + extra + "\n"
             c2 = {"kind": "spell", "what": "out-of-zone", "origin": hexl(origin), "rel": rel, "a": l1(tb).hex(), "b": l1(text).hex()}
             ctx.case(("ooz", text, rel), sample=None)
@@ -1271,12 +1340,15 @@ def generate(ctx: Ctx, scale: int, rng, thorough=False):
 
 
 def run(ctx: Ctx):
+    ctx.extra["implementation_variant"] = dict(variant())
     for p in sorted(glob.glob(os.path.join(VERIF, "corpus", "C09", "*.json"))):
         c = json.load(open(p))
         ctx.case(("corpus", p), sample=None)
         eval_case(ctx, c)
         ctx.count("corpus")
-    generate(ctx, 1 if ctx.tier == "quick" else 12, ctx.rng, thorough=(ctx.tier == "thorough"))
+    # ctx.rng streams of neighbouring seeds are shifted copies of one another (state = seed * golden + c); forking
+    # through one mixed output decorrelates them
+    generate(ctx, 1 if ctx.tier == "quick" else 12, ctx.rng.fork(0xC09), thorough=(ctx.tier == "thorough"))
 
 
 def search(ctx: Ctx):
@@ -1310,7 +1382,7 @@ def impl_of_op(op: str):
     if w[0] == "c09.read":
         from harness.core import dec_labels
         o = None if w[1] == "none" else dec_labels(w[1])
-        return impl_read(o, w[2] == "1", w[3] == "1", dec(w[4]))[0]
+        return impl_read(o, w[2] == "1", w[3] == "1", dec(w[5]))[0]
     return "?"
 
 
